@@ -105,6 +105,11 @@ def pathological(rng: random.Random, n_long: int) -> List[Tuple[str, Any, str]]:
     out.append(("rg", ["f(" * 30 + "x" + ")" * 30], "rg-depth-30"))
     out.append(("rg", ["(" * 30 + "x" + ")" * 29], "rg-depth-30-unbalanced"))
     out.append(("md", ("> " * 20) + "{" + "1" * 200, "md-nested-quote-brace"))
+    # characters for which str.isdigit() / isnumeric() hold but which are not decimal digits, inside braces and numbers
+    for i, t in enumerate(["cm{\u00b2}", "{\u2460}", "{1\u00b2}", "{\u2075} x", "{\u00bd cup}", "{\u0663 eggs}", "{\uff12}", "{2\u2044 3}",
+                           "\u00b2 eggs", "{\u00b2 eggs} x", "1\u00b2 kg flour", "\u2460 = y", "50\uff05 of x"]):
+        out.append(("md", "# T\n\nUse " + t + " here.\n\n    " + t + "\n", f"md-odd-digits-{i}"))
+        out.append(("rg", [t], f"rg-odd-digits-{i}"))
     return out
 
 
